@@ -169,6 +169,9 @@ func dwDress(dress string, rec *recWriter) (io.Writer, func()) {
 		}
 		return &b, func() { rec.Write(b.Bytes()) }
 	}
+	if dress == "reentrant" {
+		return reentrantWriter{rec}, func() {}
+	}
 	return richWriter{rec}, func() {}
 }
 
